@@ -225,13 +225,17 @@ def multiLineWithin : List (List P) → Polygonal → Except Fault Status
     | .error e => .error e
     | .ok s => if s = .outside then .ok .outside else multiLineWithin rest pg
 
-/-- `Polygon.Within`: `reflect.DeepEqual(p, poly)` is true only for a `Polygon` argument with
-equal rings (nil and empty slices are not distinguished by the protocol). -/
+/-- `Polygon.Within` (fixed code: vertex loop first, then the `reflect.DeepEqual(p, poly)` shortcut,
+which is true only for a `Polygon` argument with equal rings; nil and empty slices are not
+distinguished by the protocol).  The nested loop
+`for _, r := range p { for _, pt := range r { … return Outside } }` is the loop of
+`MultiLineString.Within` with `LineString.Within` inlined. -/
 def polygonWithin (p : Poly) (pg : Polygonal) : Except Fault Status :=
-  if pg = .polygon p then .ok .onEdge
-  else
-    -- `for _, r := range p { for _, pt := range r { … return Outside } }; return Inside`:
-    -- the same nested loop as `MultiLineString.Within` with `LineString.Within` inlined
-    multiLineWithin p pg
+  match multiLineWithin p pg with
+  | .error e => .error e
+  | .ok s =>
+    if s = .outside then .ok .outside
+    else if pg = .polygon p then .ok .onEdge
+    else .ok .inside
 
 end GeomV.C02
